@@ -1037,6 +1037,126 @@ func aritySpec(ctx string, cfg int, tiny []byte) spec {
 	}
 }
 
+// ---- deterministic jump families
+
+// code of exactly n bytes: PUSH2 dest, JUMP (or PUSH1 1, PUSH2 dest, JUMPI), padding of JUMPDEST-free bytes,
+// last byte JUMPDEST: destinations n-1 (valid), n (one past the end), n+1, and far ones
+func jumpEdgeProg(n int, dest *big.Int, jumpi bool) []byte {
+	a := &asm{}
+	if jumpi {
+		a.pushU(1)
+	}
+	bs := dest.Bytes()
+	if len(bs) < 2 {
+		bs = append(make([]byte, 2-len(bs)), bs...)
+	}
+	if len(bs) > 32 {
+		bs = bs[len(bs)-32:]
+	}
+	a.op(byte(0x5f + len(bs))).op(bs...)
+	if jumpi {
+		a.op(0x57)
+	} else {
+		a.op(0x56)
+	}
+	for len(a.b) < n-1 {
+		a.op(0x01)
+	}
+	a.op(0x5b)
+	return a.bytes()
+}
+
+// pairs (A, B) of different programs that both jump, for the JUMPDEST-analysis cache shared across frames:
+// A jumps (its analysis gets cached), then starts B through `kind`, then jumps again.
+func jumpCacheA(kind byte, to common.Address, variant int) []byte {
+	a := &asm{}
+	a.pushU(4).op(0x56).op(0xfe).op(0x5b) // 0: PUSH1 4 JUMP INVALID JUMPDEST(4)
+	if kind == 0xf0 {
+		// CREATE with B (call data) as init code
+		a.op(0x36).pushU(0).pushU(0).op(0x37).op(0x36).pushU(0).pushU(0).op(0xf0).op(0x50)
+	} else {
+		a.pushU(0).pushU(0).pushU(0).pushU(0)
+		if kind == 0xf1 || kind == 0xf2 {
+			a.pushU(0)
+		}
+		a.pushB(to.Bytes()).op(0x5a).op(kind).op(0x50)
+	}
+	// second jump of A over a PUSH whose data byte is 0x5b
+	here := len(a.b)
+	a.pushU(uint64(here + 6)).op(0x56) // PUSH1 x JUMP  (3 bytes)
+	a.op(0x60, 0x5b)                   // PUSH1 0x5b    (data byte is a JUMPDEST byte)
+	a.op(0xfe)
+	a.op(0x5b) // here+6
+	if variant == 1 {
+		a.pushU(uint64(here + 4)).op(0x56) // jump INTO the push data: must fail
+	}
+	a.op(0x5a)
+	a.storeTopAndReturn()
+	return a.bytes()
+}
+
+func jumpCacheB(variant int) []byte {
+	a := &asm{}
+	switch variant {
+	case 0: // longer than A, valid jump to its far end (beyond A's bitmap)
+		a.pushU(200).op(0x56)
+		for len(a.b) < 200 {
+			a.op(0x60, 0x5b)
+		}
+		a.op(0x5b).op(0x00)
+	case 1: // jump into PUSH data at a position that is a real JUMPDEST in A (position 4)
+		a.pushU(4).op(0x56).op(0x60, 0x5b).op(0x00) // 0:PUSH1 4, 2:JUMP, 3:PUSH1, 4:0x5b(data)
+	case 2: // valid JUMPDEST at a position that is PUSH data in a same-length other program
+		a.pushU(3).op(0x56).op(0x5b).op(0x60, 0x5b).op(0x00)
+	default: // very short: valid jump at 3
+		a.pushU(3).op(0x56).op(0x5b)
+	}
+	return a.bytes()
+}
+
+func jumpFamilies(all bool, seed uint64, visit func(name string, s spec)) {
+	zero := big.NewInt(0)
+	cfgs := []int{arityCfg(int(seed % 8))}
+	if all {
+		cfgs = []int{arityCfg(0), arityCfg(1), arityCfg(3), arityCfg(7)}
+	}
+	for _, cfg := range cfgs {
+		// boundary destinations in every context
+		for _, n := range []int{6, 33, 34, 70} {
+			dests := []*big.Int{big.NewInt(int64(n - 1)), big.NewInt(int64(n)), big.NewInt(int64(n + 1)), big.NewInt(int64(n - 2)), big.NewInt(0),
+				new(big.Int).SetUint64(1 << 32), new(big.Int).SetUint64(1<<63 - 1), new(big.Int).SetUint64(1 << 63), new(big.Int).SetUint64(^uint64(0)),
+				pow2(64), new(big.Int).Add(pow2(64), big.NewInt(int64(n-1))), pow2(255), new(big.Int).Sub(pow2(256), big.NewInt(1))}
+			for _, d := range dests {
+				for _, ji := range []bool{false, true} {
+					tiny := jumpEdgeProg(n, d, ji)
+					for _, ctx := range []string{"top", "static-entry", "staticcall-2", "delegatecall", "callcode", "create-top", "create-op"} {
+						visit("jump-edge", aritySpec(ctx, cfg, tiny))
+					}
+				}
+			}
+		}
+		// the analysis cache across frames
+		for _, kind := range []byte{0xf1, 0xf2, 0xf4, 0xfa, 0xf0} {
+			for va := 0; va < 2; va++ {
+				for vb := 0; vb < 4; vb++ {
+					b := jumpCacheB(vb)
+					sp := spec{kind: "C", cfg: cfg, gas: 3000000, value: zero, code: jumpCacheA(kind, auxAddr, va), aux: b, to: target}
+					if kind == 0xf0 {
+						sp.aux = nil
+						sp.input = b
+					}
+					visit("jump-cache", sp)
+					// and the other way round: B's frame first (outermost), calling A
+					if kind != 0xf0 {
+						sp2 := spec{kind: "C", cfg: cfg, gas: 3000000, value: zero, code: jumpCacheA(kind, aux2Addr, va), aux: nil, aux2: b, to: target}
+						visit("jump-cache", sp2)
+					}
+				}
+			}
+		}
+	}
+}
+
 // consistent flag vectors for the 8 table configurations (table bits + the chain flags a height would give)
 func arityCfg(t int) int {
 	cfg := t & 7
@@ -1228,6 +1348,10 @@ func main() {
 			doSpec(out, s, stats)
 			genKinds["arity-"+ctx]++
 		})
+		jumpFamilies(hx.ArgInt(a, "arity", 1) > 1, hx.SeedFromEnv(), func(name string, s spec) {
+			doSpec(out, s, stats)
+			genKinds[name]++
+		})
 	}
 	n := hx.ArgInt(a, "n", 1500)
 	var kept []spec
@@ -1313,6 +1437,11 @@ func main() {
 			genKinds["top-precompile"]++
 			to = precompileAddr(1 + r.Intn(18))
 			input = g.precompileInput(int(to[19]))
+			if gas > 10000000 {
+				// hypothesis "gas limit < 2^44": a correctly priced MODEXP at 2^63 gas may ask Go for 2^62 bytes
+				// (known finding modexp-operand-alloc-panics-above-1e18-gas, probed once by the searcher)
+				gas = 10000000
+			}
 		}
 		sp := spec{kind: "C", cfg: cfg, gas: gas, value: value, code: code, input: input, aux: aux, aux2: aux2, to: to, nonce: nonce}
 		doSpec(out, sp, stats)
